@@ -65,6 +65,20 @@ size_t cqv_needed;     /* flush_block: the encoder's packed_bytes_needed */
   && (d)->values_in_mini_block >= 0 && (d)->values_in_mini_block <= 32 \
   && (d)->mini_block_pos >= 0 && (d)->mini_block_pos <= 32 && (d)->values_decoded >= 0)
 
+/* what delta_encoder_flush_block accounts per mini-block of width w (its packed_bytes_needed, delta.c:390-399): the capacity
+ * guard is only as good as this sum, so 'bytes written == this sum' is the safety-relevant identity.  Shifts, no products. */
+#define DELTA_ENC_PAY(w) ((w) == 0 ? (size_t)0 : (w) <= 32 ? ((size_t)(w) << 2) : ((((size_t)(w) + 7) >> 3) << 5))
+#define DELTA_ENC_SUM(bw, n) (((n) > 0 ? DELTA_ENC_PAY((bw)[0]) : (size_t)0) + ((n) > 1 ? DELTA_ENC_PAY((bw)[1]) : (size_t)0) + \
+                              ((n) > 2 ? DELTA_ENC_PAY((bw)[2]) : (size_t)0) + ((n) > 3 ? DELTA_ENC_PAY((bw)[3]) : (size_t)0))
+/* facts about the already chosen width j (j < n): at most 64, mirrored in the ghost, and non-zero only for a mini-block that has values */
+#define DELTA_ENC_WOK(bw, gw, j, n, count) ((n) <= (j) || ((bw)[j] <= 64 && (gw)[j] == (bw)[j] && ((bw)[j] == 0 || ((j) << 5) < (count))))
+/* adjusted delta fits in w bits (mod 2^64 arithmetic) */
+#define DELTA_FITS(d, mn, w) ((w) <= 64 && ((w) == 64 || ((((uint64_t)(d)) - ((uint64_t)(mn))) >> ((w) & 63)) == 0))
+#ifdef CQV_ULEB_BYTES
+#define DELTA_ULEB_BYTES(x) (x)
+#else
+#define DELTA_ULEB_BYTES(x) 1
+#endif
 /* job-selectable parts of the flush_block postcondition (one concern per job keeps each query small) */
 #ifdef CQV_FLUSH_ACCOUNT
 #define DELTA_FLUSH_ACCOUNT(x) (x)
